@@ -66,6 +66,12 @@ func genAct(r *rng.R, allowAttr bool, panicPct int, hdrN *int) Act {
 		return Act{K: "ah", B: "X-H" + strconv.Itoa(*hdrN%5), V: "v" + strconv.Itoa(r.Intn(9))}
 	default:
 		if allowAttr {
+			switch r.Intn(8) {
+			case 0:
+				return Act{K: "sa", B: []string{"a", "b"}[r.Intn(2)], V: ""} // SetAttribute(k, nil): withdraw it
+			case 1:
+				return Act{K: "we", N: codes[r.Intn(len(codes))], B: "E" + strconv.Itoa(r.Intn(9))} // WriteErrorString: the Response carries an error from here on
+			}
 			return Act{K: "sa", B: []string{"a", "b"}[r.Intn(2)], V: "x" + strconv.Itoa(r.Intn(9))}
 		}
 		return Act{K: "w", B: "m"}
@@ -171,7 +177,7 @@ func GenCfg(r *rng.R, o GenOpts) *Cfg {
 		cfg.Plain = append([]Act{{K: "hj"}}, cfg.Plain...)
 	}
 	cfg.Late = r.Chance(1, 4)
-	cfg.Provider = []string{"pool", "pool", "bounded0", "bounded1", "bounded2"}[r.Intn(5)]
+	cfg.Provider = []string{"pool", "pool+keep", "bounded0", "bounded1", "bounded2", "bounded1+keep"}[r.Intn(6)]
 	cfg.CustomErr = r.Chance(4, 5)
 	return cfg
 }
